@@ -720,6 +720,61 @@ impl World {
     }
 }
 
+impl World {
+    /// Run `fut` as a root task to completion on the default schedule (no choice points), letting
+    /// every other task run too, until nothing is enabled. `None` = it did not complete (it is
+    /// blocked on something that will never happen: a deadlock or a lost wake-up).
+    pub fn complete<T: Send + 'static>(
+        &mut self,
+        name: &str,
+        fut: impl Future<Output = T> + Send + 'static,
+    ) -> Option<T> {
+        let h = self.spawn(name, fut);
+        self.settle();
+        h.take()
+    }
+
+    /// Same, but every scheduling decision is a choice point of the explorer.
+    pub fn complete_explored<T: Send + 'static>(
+        &mut self,
+        name: &str,
+        fut: impl Future<Output = T> + Send + 'static,
+    ) -> Option<T> {
+        let h = self.spawn(name, fut);
+        self.run_to_quiescence();
+        h.take()
+    }
+
+    /// Two real zbus connections joined by an in-memory link, both pre-authenticated (no SASL),
+    /// peer-to-peer, no internal executor thread. Returns (client, server, link); the client is
+    /// end `a` of the link.
+    pub fn p2p_pair(&mut self) -> (zbus::Connection, zbus::Connection, Link) {
+        let link = Link::new();
+        let a = link.end_a(SockCfg::default());
+        let b = link.end_b(SockCfg::default());
+        let ha = self.spawn("build-client", async move {
+            zbus::connection::Builder::authenticated_socket(a, GUID)
+                .unwrap()
+                .p2p()
+                .internal_executor(false)
+                .build()
+                .await
+        });
+        let hb = self.spawn("build-server", async move {
+            zbus::connection::Builder::authenticated_socket(b, GUID)
+                .unwrap()
+                .p2p()
+                .internal_executor(false)
+                .build()
+                .await
+        });
+        self.settle();
+        let c = ha.take().expect("client build did not complete").expect("client build");
+        let s = hb.take().expect("server build did not complete").expect("server build");
+        (c, s, link)
+    }
+}
+
 impl Drop for World {
     fn drop(&mut self) {
         // Drain the pool: dropping a Runnable cancels its task and drops the future, which may
